@@ -263,6 +263,13 @@ pub fn enum_functor(_s: u64) -> Vec<String> {
     v.push((vec![c.clone(), atom("noun_phrase"), SInteger(2)], vec![], "yes"));
     v.push((vec![c.clone(), atom("noun_phrase"), SInteger(3)], vec![], "no"));
     v.push((vec![atom("x"), atom("x")], vec![], "no"));
+    // the functor asked for while the arity is given - as a number, through a bound variable, through a chain (seed C06-5: the
+    // binding of the functor was dropped on exactly this path)
+    v.push((vec![c.clone(), var(1, "$F"), SInteger(2)], vec![], "F=noun_phrase"));
+    v.push((vec![c.clone(), var(1, "$F"), SInteger(3)], vec![], "no"));
+    v.push((vec![c.clone(), var(1, "$F"), var(5, "$A")], mk(&[(5, SInteger(2))]), "F=noun_phrase;A=2"));
+    v.push((vec![c.clone(), var(1, "$F"), var(5, "$A")], mk(&[(5, var(6, "$B")), (6, SInteger(2))]), "F=noun_phrase;A=2"));
+    v.push((vec![var(2, "$C"), var(1, "$F"), SInteger(2)], mk(&[(2, c.clone())]), "F=noun_phrase"));
     v.iter().map(|(ts, ss, e)| format!("ss={};in={};exp={}", ser_ss(ss), ser_list(ts), e)).collect()
 }
 pub fn check_functor(case: &str) -> Result<(), String> {
